@@ -189,6 +189,7 @@ func runDyn(o *Opts) *Summary {
 		left := []*NNode{}
 		nextOp := 30 + w.rng.Intn(40)
 		quiet, quietLeft := 0, 0
+		var fallBehind *NNode // a node that is made to fall behind before it is sent back to CatchingUp
 		// Byzantine validators (only their block-signature payloads are hostile):
 		// one genesis validator when there are at least four, and every joiner
 		byz := map[int]bool{}
@@ -263,7 +264,9 @@ func runDyn(o *Opts) *Summary {
 			}
 			// gossip among nodes that are babbling; now and then one of them stays
 			// quiet for a few rounds (it creates no event in those rounds)
-			if quietLeft > 0 {
+			if fallBehind != nil {
+				quiet = fallBehind.num
+			} else if quietLeft > 0 {
 				quietLeft--
 			} else if w.rng.Intn(60) == 0 {
 				quiet = active[w.rng.Intn(len(active))].num
@@ -326,7 +329,12 @@ func runDyn(o *Opts) *Summary {
 			}
 			// a node with history (it knows former validators and later joiners) is
 			// sent back to CatchingUp and offered tampered responses, then a valid one
-			if o.Arg == "fastsync" && k%110 == 70 {
+			// (babble only fast-forwards a node that is behind.  The node is first made to
+			// fall behind: everybody pulls all its events, then it stays silent for 35
+			// steps while the others go on - sending back a node that is ahead of its
+			// peers would make it forget events nobody else holds and re-use their
+			// heights.)
+			if o.Arg == "fastsync" && k%110 == 35 && fallBehind == nil {
 				olds := []*NNode{}
 				for _, n := range active {
 					if n.State() == "Babbling" && n.store.LastBlockIndex() > 3 && !vn.pendingFor(ops, n) {
@@ -334,7 +342,23 @@ func runDyn(o *Opts) *Summary {
 					}
 				}
 				if len(olds) > 1 {
-					g := olds[w.rng.Intn(len(olds))]
+					fallBehind = olds[w.rng.Intn(len(olds))]
+					for _, n := range active {
+						if n != fallBehind && n.State() == "Babbling" {
+							vn.Pull(n, fallBehind, false)
+						}
+					}
+				}
+			}
+			if o.Arg == "fastsync" && k%110 == 70 {
+				olds := []*NNode{}
+				if fallBehind != nil && fallBehind.State() == "Babbling" && !vn.pendingFor(ops, fallBehind) {
+					olds = append(olds, fallBehind, fallBehind)
+				}
+				fb := fallBehind
+				fallBehind = nil
+				if len(olds) > 1 {
+					g := fb
 					trusted := map[string]bool{}
 					for _, pr := range g.core.Peers().Peers {
 						trusted[canonKey(pr.PubKeyHex)] = true
